@@ -158,6 +158,9 @@ def gen_program(rng, tier):
             ops.append(rng.choice(O.HETERO))
     if rng.random() < 0.2:
         ops[-1] = rng.choice(O.TERMINAL)
+    # efficiency only: spellings that always run into one of the torch bugs of TORCH_BUGS are drawn rarely
+    waste = {"all_any"} | ({"names_set", "names_none", "batch_size_set", "auto_batch_size"} if kind == "tc" else set())
+    ops = [o if (o not in waste or rng.random() < 0.1) else rng.choice(O.ROUND1) for o in ops]
     return shape, kind, ops
 
 
@@ -269,7 +272,29 @@ def _repro_object_compare_symint():
         return "not supported between instances of 'object' and 'NoneType'" in str(ex)
 
 
+def _repro_range_index_frame_input():
+    """`t[idx]` where `idx` is a `range` that reaches a compiled frame as an argument after the frame was compiled for
+    another index (a slice): dynamo turns the range's ints into proxies and dies with InternalTorchDynamoError
+    ('Proxy' object cannot be interpreted as an integer).  tensordict meets it in `utils._get_item(tensor, index)`,
+    a frame of its own after a graph break (e.g. indexing a stack that holds non-tensor data)."""
+    import torch._dynamo
+
+    def g(t, idx):
+        return t[idx]
+    torch._dynamo.reset()
+    f = torch.compile(g, backend="eager")
+    x = torch.arange(6).reshape(3, 2)
+    try:
+        f(x, slice(1, None))
+        f(x, range(2))
+        return False
+    except Exception as ex:
+        return "'Proxy' object cannot be interpreted as an integer" in str(ex)
+
+
 TORCH_BUGS = [
+    {"id": "dynamo-range-index-frame-input", "repro": _repro_range_index_frame_input,
+     "match": lambda msg: "'Proxy' object cannot be interpreted as an integer" in msg},
     {"id": "dynamo-object-compare-symint", "repro": _repro_object_compare_symint,
      "match": lambda msg: "not supported between instances of 'object' and 'NoneType'" in msg},
     {"id": "dynamo-list-pop-dynamic-int", "repro": _repro_list_pop_dynamic_int,
